@@ -33,6 +33,9 @@ var weirdShapes = []weirdShape{
 	{"multisig-m-greater-n", 0x12, func(a, b []byte) []byte { return cat([]byte{83, 33}, a, []byte{33}, b, []byte{82, 0xae}) }},
 	{"multisig-one-key-repeated", 0x12, func(a, b []byte) []byte { return cat([]byte{82, 33}, a, []byte{33}, a, []byte{82, 0xae}) }},
 	{"multisig-ends-in-key-marker", 0x12, func(a, b []byte) []byte { return cat([]byte{81, 33}, a, []byte{33}, b, []byte{33}) }},
+	// the script ends exactly after its last key push (no n, no CHECKMULTISIG)
+	{"multisig-ends-after-last-key", 0x12, func(a, b []byte) []byte { return cat([]byte{81, 33}, a, []byte{33}, b) }},
+	{"std-prefix-multisig-ends-after-last-key", 0x21, func(a, b []byte) []byte { return cat([]byte{82, 33}, a, []byte{33}, b) }},
 	// the same malformed scripts behind a standard-prefix address
 	{"std-prefix-multisig-tail-1", 0x21, func(a, b []byte) []byte { return cat([]byte{81, 33}, a, []byte{33}, b, []byte{1}) }},
 	{"std-prefix-multisig-tail-2", 0x21, func(a, b []byte) []byte { return cat([]byte{81, 33}, a, []byte{33}, b, []byte{2}) }},
